@@ -113,7 +113,7 @@ pub fn judge(prop: &str, level: &Level, unit: &Value, model: &Model, p: &bpaf::O
     Some(())
 }
 
-fn with_usage_fallback(ls: Vec<Level>) -> Vec<Level> {
+pub fn with_usage_fallback(ls: Vec<Level>) -> Vec<Level> {
     fn set(l: &mut Level) {
         l.usage_fallback = true;
         if let Tail::Cmds { cmds, .. } = &mut l.tail {
